@@ -41,10 +41,11 @@ META = dict(
     level_note='Trusted: Coq kernel + vm_compute; the harness (virtual clock, per-thread stepping, '
                'float->int conversion of command parameters with the same Python expression '
                'int(round(x*1000000))); CPython float multiplication being exact on the dyadic grid.',
-    partial='iteration atomicity and the float link for non-dyadic dt are assumptions; supersession is '
-            'proved for commands whose counter differs from the running command\'s counter (a stop that '
-            'reuses the counter does not stop: known finding same_counter); a second program_track '
-            'keeps the first one\'s rate (known finding track_rate_stale)',
+    partial='iteration atomicity and the float link for non-dyadic dt are assumptions; supersession '
+            '(positioning and tracking threads, over whole histories) is proved for commands whose counter '
+            'differs from the running command\'s counter (a stop that reuses the counter does not stop: '
+            'known finding same_counter); a second program_track keeps the first one\'s rate (known '
+            'finding track_rate_stale)',
     rule='one case = one axis object + a history of 10..60 events (accepted mode commands, loop '
          'iterations of chosen command threads with chosen elapsed time, update_status, pointing feeds, '
          'offsets), observation compared after every event; non-trivial = distinct history in which the '
@@ -294,14 +295,20 @@ EXTRA_CONFIGS = [
 # seeded histories
 
 class Script:
-    """random history on one rig; records (event term, observation)"""
+    """seeded history on one rig; records (event term, observation) for the correspondence and the
+    concrete operations (JSON-able) for the oracle's witnesses.  mode 'soup': anything goes;
+    mode 'drive': keeps the newest positioning thread running until it arrives (so that arrivals,
+    interruptions in mid-motion and relative presets after an interrupted motion are frequent)."""
 
-    def __init__(self, rng, rig):
+    def __init__(self, rng, rig, monitor=None, mode='soup'):
         self.rng = rng
         self.r = rig
+        self.mon = monitor
+        self.mode = mode
         self.cnt = rng.randrange(1, 1000)
         self.used = []
         self.hist = []
+        self.ops = []
         self.moved = False
         self.kinds = []
 
@@ -313,7 +320,10 @@ class Script:
         self.used.append(self.cnt)
         return self.cnt
 
-    def record(self, term):
+    def do(self, op):
+        """execute one concrete operation on the rig (through the monitor when there is one)"""
+        self.ops.append(op)
+        term = apply_op(self.r, op, self.mon)
         if term is None:
             return
         before = self.hist[-1][1][0] if self.hist else self.r.p0
@@ -356,6 +366,11 @@ class Script:
             return p
         return rng.choice([lo - 0.000001, hi + 0.000001, lo - 1, hi + 5])    # refused by validation
 
+    def tick_size(self):
+        rng = self.rng
+        return rng.choice([0, 1, 2, 10, 33, 100, 256, 512, 1024, 1024, 3000, 10240, 65536,
+                           rng.randrange(0, 5000), rng.randrange(0, 1 << 19)])
+
     def step(self):
         rng, r = self.rng, self.r
         a = r.a
@@ -363,10 +378,10 @@ class Script:
         live = r.live()
         x = rng.random()
         if a.axis_state != 3 and x < 0.6:
-            kind = 'active'
+            kind = 'tick' if live and rng.random() < 0.5 else 'active'
         elif a.stowed and x < 0.4:
-            kind = 'unstow'
-        elif live and x < 0.6:
+            kind = 'tick' if live and rng.random() < 0.5 else 'unstow'
+        elif live and x < (0.8 if self.mode == 'drive' else 0.6):
             kind = 'tick'
         else:
             kind = rng.choice(
@@ -376,42 +391,72 @@ class Script:
         self.kinds.append(kind)
         if kind == 'tick':
             ids = live or [0]
-            mid = rng.choice(ids) if rng.random() < 0.93 else rng.randrange(0, max(1, len(r.handles) + 1))
-            k = rng.choice([0, 1, 2, 10, 33, 100, 256, 512, 1024, 1024, 3000, 10240, 65536,
-                            rng.randrange(0, 5000), rng.randrange(0, 1 << 19)])
-            self.record(r.tick(mid, k))
+            if self.mode == 'drive' and live:
+                mid = live[-1] if rng.random() < 0.8 else rng.choice(live)
+                k = rng.choice([256, 1024, 4096, 65536, 1 << 18, self.tick_size()])
+            else:
+                mid = rng.choice(ids) if rng.random() < 0.93 else rng.randrange(0, max(1, len(r.handles) + 1))
+                k = self.tick_size()
+            self.do(['tick', mid, k])
         elif kind == 'update':
-            self.record(r.update())
+            self.do(['update'])
         elif kind == 'feed':
             p = a.p_Ist
             nxt = rng.choice([None, 0, p, p + rng.randrange(-2000000, 2000000), rng.randrange(r.lo, r.hi + 1),
                               r.hi + rng.randrange(-3, 4), r.lo + rng.randrange(-3, 4)])
             bahn = rng.choice([p, p + rng.randrange(-1500000, 1500000), rng.randrange(r.lo - 5, r.hi + 6)])
-            self.record(r.feed(nxt, rng.choice([0, 2, 2, 3, 3, 4]), bahn))
+            self.do(['feed', nxt, rng.choice([0, 2, 2, 3, 3, 4]), bahn])
         elif kind == 'offset':
             deg = rng.choice([0.0, 0.001, -0.25, 1.5, rng.uniform(-3, 3), 3000.0])
-            self.record(r.offset(self.next_counter(), rng.random() < 0.5, deg))
+            self.do(['offset', self.next_counter(), rng.random() < 0.5, deg])
         elif kind == 'abs':
-            self.record(r.command(self.next_counter(), 'abs', self.pos(), self.rate(vdeg)))
+            self.do(['cmd', self.next_counter(), 'abs', self.pos(), self.rate(vdeg)])
         elif kind == 'rel':
             tgt = self.pos()
-            self.record(r.command(self.next_counter(), 'rel', tgt - a.p_Ist / 1000000.0,
-                                  self.rate(vdeg, allow_over=False)))
+            self.do(['cmd', self.next_counter(), 'rel', tgt - a.p_Ist / 1000000.0,
+                     self.rate(vdeg, allow_over=False)])
         elif kind == 'slew':
             pct = rng.choice([1.0, -1.0, 0.5, -0.3, 0.0, rng.uniform(-1, 1), 1.5])
-            self.record(r.command(self.next_counter(), 'slew', pct, self.rate(vdeg)))
+            self.do(['cmd', self.next_counter(), 'slew', pct, self.rate(vdeg)])
         elif kind == 'track':
-            self.record(r.command(self.next_counter(), 'track', 0.0, self.rate(vdeg)))
+            self.do(['cmd', self.next_counter(), 'track', 0.0, self.rate(vdeg)])
         elif kind == 'drive':
             idx = rng.choice([0, 0, 0, 1, 0.7, 5]) if r.stows else rng.choice([0, 3])
-            self.record(r.command(self.next_counter(), 'drive', idx, self.rate(vdeg * 0.5)))
+            self.do(['cmd', self.next_counter(), 'drive', idx, self.rate(vdeg * 0.5)])
         else:
-            self.record(r.command(self.next_counter(), kind))
+            self.do(['cmd', self.next_counter(), kind, 0.0, 0.0])
 
     def run(self, n):
-        for _ in range(n):
-            self.step()
-        self.r.close()
+        try:
+            for _ in range(n):
+                self.step()
+                if self.mon is not None and self.mon.failures:
+                    break
+        finally:
+            self.r.close()
+
+
+def apply_op(rig, op, mon=None):
+    """one concrete operation ['cmd', cnt, name, p1, p2] | ['tick', id, k] | ['update'] |
+    ['feed', next, ptState, p_Bahn] | ['offset', cnt, relative, deg]; returns the model event term"""
+    if mon is not None:
+        mon.before(op)
+    kind = op[0]
+    if kind == 'cmd':
+        term = rig.command(op[1], op[2], op[3], op[4])
+    elif kind == 'tick':
+        term = rig.tick(op[1], op[2])
+    elif kind == 'update':
+        term = rig.update()
+    elif kind == 'feed':
+        term = rig.feed(op[1], op[2], op[3])
+    elif kind == 'offset':
+        term = rig.offset(op[1], op[2], op[3])
+    else:
+        raise ValueError(op)
+    if mon is not None:
+        mon.after(op, term is not None)
+    return term
 
 
 def case_term(rig, o0, hist):
@@ -441,7 +486,6 @@ def correspondence(ctx):
             axis = make_axis(AS, conf, start)
         axis.update_status()           # System.__init__ runs the subsystem updates once
         rig = Rig(axis, conf['axis_id'])
-        o0 = None
         sc = Script(rng, rig)
         o0 = rig.observe()
         sc.run(rng.choice([10, 20, 40, 60]))
@@ -459,10 +503,409 @@ def correspondence(ctx):
                   show='show', shard=ctx.n(8, 40))
 
 
+# ---------------------------------------------------------------------------
+# property-level oracle on the implementation: the theorem statements transcribed to Python, checked
+# by a monitor that watches every operation applied to the real axis object
+
+def half_even(fr):
+    return int(round(fr))        # Fraction.__round__ is round-half-even, like round(float)
+
+
+class Monitor:
+    MOVE = ('abs', 'rel', 'slew', 'drive')
+    HARD = ('stop', 'abs', 'rel', 'slew', 'drive')      # leave the trajectory state != tracking
+
+    def __init__(self, rig):
+        self.r = rig
+        self.m = {}             # mover id -> dict
+        self.failures = []      # (klass, what, detail)
+        self.pre = None
+        self.nexc = 0
+        self.stats = {}
+        self.uses = {}          # counter -> number of accepted superseding commands that carried it
+
+    def stat(self, k):
+        self.stats[k] = self.stats.get(k, 0) + 1
+
+    def bad(self, klass, what, **detail):
+        self.failures.append((klass, what, detail))
+
+    def sup_class(self):
+        """a motion that survives a stop / newer command: known finding when the counter that is current
+        in the implementation was carried by more than one command (counter reuse), else a violation"""
+        return 'same_counter' if self.uses.get(self.r.a.curr_mode_counter, 0) > 1 else 'supersession'
+
+    def snap(self):
+        a = self.r.a
+        return dict(p=a.p_Ist, v=a.v_Ist, active=a.axis_state == 3, stowed=bool(a.stowed), pt=a.ptState,
+                    pta=bool(a.program_track_active), live=set(self.r.live()))
+
+    def before(self, op):
+        self.pre = self.snap()
+
+    def after(self, op, accepted):
+        r, a, pre = self.r, self.r.a, self.pre
+        post = self.snap()
+        for name, exc in r.exceptions[self.nexc:]:
+            if 'ZeroDivisionError' in exc:
+                self.bad('track_zero_dt', 'program_track thread died dividing by a zero elapsed time', exc=exc)
+            else:
+                self.bad('thread_exception', 'a command thread raised', exc=exc, at=name)
+        self.nexc = len(r.exceptions)
+        if not r.lo <= post['p'] <= r.hi:
+            self.bad('range', 'encoder position outside the operating range', p=post['p'], lo=r.lo, hi=r.hi)
+        kind = op[0]
+        if kind == 'tick':
+            self.after_tick(op[1], op[2], pre, post)
+            return
+        if post['p'] != pre['p']:
+            self.bad('moved_without_iteration', 'position changed by an operation that is not a loop iteration',
+                     op=op)
+        if kind == 'update':
+            p, v = post['p'], post['v']
+            got = [int(a.Pre_Limit_Dn), int(a.Fin_Limit_Dn), int(a.Pre_Limit_Up), int(a.Fin_Limit_Up),
+                   int(a.Rate_Limit)]
+            want = [int(p == r.lo), 0, int(p == r.hi), 0, int(abs(v) > r.vmax)]
+            if got != want:
+                self.bad('bits', 'limit / rate warning bits disagree with position / velocity',
+                         p=p, v=v, got=got, want=want)
+            if abs(v) > r.vmax:
+                self.bad('velocity', 'reported velocity exceeds the axis maximum', v=v)
+            self.stat('update')
+        elif kind == 'cmd':
+            if not accepted:
+                if post != pre:
+                    self.bad('refused_changed_state', 'a refused command changed the motion state', op=op)
+                return
+            self.after_cmd(op, pre, post)
+
+    def after_cmd(self, op, pre, post):
+        r, a = self.r, self.r.a
+        _, cnt, name, p1, p2 = op
+        mid = len(r.handles) - 1
+        has_stow = bool(r.stows)
+        superseding = name in ('stop', 'abs', 'rel', 'slew', 'track') or \
+            (has_stow and name in ('stow', 'unstow', 'drive'))
+        hard = name in ('stop', 'abs', 'rel', 'slew') or (has_stow and name == 'drive')
+        if superseding:
+            self.uses[cnt] = self.uses.get(cnt, 0) + 1
+            for m in self.m.values():
+                if m['kind'] in self.MOVE or hard:
+                    m['superseded'] = True
+        if name == 'track':
+            live_tracks = [m for i, m in self.m.items() if m['kind'] == 'track' and i in pre['live']]
+            if pre['pta'] and live_tracks:
+                for m in live_tracks:
+                    m['newest_rate'] = abs(ir(p2 * 1000000))
+                    if not m.get('superseded'):
+                        m['cnt'] = cnt
+            else:
+                self.m[mid] = dict(kind='track', cnt=cnt, rate=abs(ir(p2 * 1000000)),
+                                   newest_rate=abs(ir(p2 * 1000000)))
+                self.stat('cmd_track')
+                self.after_tick(mid, 0, pre, post, first=True)
+        elif name in self.MOVE and (name != 'drive' or has_stow):
+            rate = ir(p2 * 1000000 * p1) if name == 'slew' else ir(p2 * 1000000)
+            if name == 'abs':
+                tgt = ir(p1 * 1000000)
+            elif name == 'rel':
+                tgt = pre['p'] + ir(p1 * 1000000)      # relative to the position validation looked at
+            elif name == 'slew':
+                tgt = r.hi if rate > 0 else r.lo if rate < 0 else pre['p']
+            else:
+                tgt = r.stows[int(p1)]
+            m = dict(kind=name, cnt=cnt, mode=Rig.MODES[name], tgt=tgt, rate=rate)
+            self.m[mid] = m
+            if not r.lo <= tgt <= r.hi:
+                self.bad('target_out_of_range', 'accepted positioning command has its target outside the range',
+                         op=op, target=tgt)
+            elif a.p_Soll != tgt:
+                self.bad('rel_target' if name == 'rel' else 'target',
+                         'commanded position p_Soll is not the target the command was validated for',
+                         op=op, p_Soll=a.p_Soll, expected=tgt, p_Ist=pre['p'])
+            self.stat('cmd_' + name)
+            # the handler has already run its first loop iteration (elapsed time 0)
+            self.after_tick(mid, 0, pre, post, first=True)
+
+    def after_tick(self, mid, k, pre, post, first=False):
+        r, a = self.r, self.r.a
+        m = self.m.get(mid)
+        dp = post['p'] - pre['p']
+        if m is None or not (first or mid in pre['live']):
+            if dp != 0 or post['v'] != pre['v']:
+                self.bad('moved_without_iteration', 'position / velocity changed though no such thread is alive',
+                         id=mid)
+            return
+        if dp != 0 and not (pre['active'] and not pre['stowed']):
+            self.bad('moved_while_gated', 'position changed while the axis was inactive or stowed',
+                     dp=dp, active=pre['active'], stowed=pre['stowed'])
+        done = mid not in post['live']
+        kfr = Fraction(k, 1024)
+        if m['kind'] == 'track':
+            if m.get('superseded'):
+                if not (done and dp == 0 and post['v'] == 0 and not post['pta']):
+                    self.bad(self.sup_class(), 'tracking not ended within one iteration after a stop / newer motion command',
+                             id=mid, done=done, dp=dp, v=post['v'])
+                self.stat('track_superseded')
+                return
+            if pre['pt'] == 2:
+                if abs(dp) > m['newest_rate'] * kfr + 1:
+                    if abs(dp) <= m['rate'] * kfr + 1:
+                        self.bad('track_rate_stale', 'axis outruns the rate of the newest program_track command '
+                                 '(the thread keeps the first command\'s rate)', dp=dp, k=k,
+                                 newest=m['newest_rate'], first=m['rate'])
+                    else:
+                        self.bad('rate', 'axis outruns the commanded rate while positioning on a track',
+                                 dp=dp, k=k, rate=m['rate'])
+            elif abs(dp) > r.vmax * kfr + 1:
+                self.bad('rate', 'axis outruns its maximum rate while tracking', dp=dp, k=k, vmax=r.vmax)
+            if abs(post['v']) > r.vmax:
+                self.bad('velocity', 'reported velocity exceeds the axis maximum', v=post['v'])
+            if dp:
+                self.stat('track_moved_pt%d' % pre['pt'])
+            return
+        # positioning thread
+        R = abs(m['rate'])
+        if abs(dp) > R * kfr + 1:
+            self.bad('rate', 'axis outruns the commanded rate', dp=dp, k=k, rate=m['rate'])
+        tgt = m['tgt']
+        d0, d1 = abs(tgt - pre['p']), abs(tgt - post['p'])
+        if d1 > d0:
+            self.bad('overshoot', 'axis moved away from / beyond its target', before=d0, after=d1)
+        if m.get('superseded'):
+            if not (done and dp == 0 and post['v'] == 0):
+                self.bad(self.sup_class(), 'motion not ended within one iteration after a stop / newer motion command',
+                         id=mid, done=done, dp=dp, v=post['v'], counter=m['cnt'])
+            self.stat('superseded')
+            return
+        if not r.lo <= tgt <= r.hi:
+            return
+        if pre['active'] and not pre['stowed']:
+            d = half_even(R * kfr)
+            if d1 != max(0, d0 - d):
+                self.bad('progress', 'remaining distance did not shrink by the displacement of the iteration',
+                         before=d0, after=d1, displacement=d)
+            if d1 == 0:
+                ex = (a.executed_mode_command_counter, a.executed_mode_command, a.executed_mode_command_answer)
+                if not (done and post['v'] == 0 and ex == (m['cnt'], m['mode'], 1)
+                        and (m['kind'] != 'drive' or a.stowed)):
+                    self.bad('arrival', 'target reached but not reported executed with zero velocity',
+                             done=done, v=post['v'], executed=list(ex), want=[m['cnt'], m['mode'], 1])
+                self.stat('arrived')
+            else:
+                if done or post['v'] != m['rate']:
+                    self.bad('arrival', 'thread ended / wrong velocity before the target was reached',
+                             done=done, v=post['v'], remaining=d1)
+                self.stat('moved' if dp else 'idle')
+        else:
+            if dp != 0 or post['v'] != 0:
+                self.bad('moved_while_gated', 'inactive / stowed axis moved or reports a velocity',
+                         dp=dp, v=post['v'])
+            self.stat('gated')
+
+
+def run_ops(AS, conf, start, ops):
+    """replay a concrete operation list on a fresh axis under the monitor; returns the failures"""
+    axis = make_axis(AS, conf, start)
+    axis.update_status()
+    rig = Rig(axis, conf['axis_id'])
+    mon = Monitor(rig)
+    try:
+        for op in ops:
+            apply_op(rig, op, mon)
+            if mon.failures:
+                break
+    finally:
+        rig.close()
+    return mon
+
+
+# ---------------------------------------------------------------------------
+# integration: the same operations entering through System.parse (framing, _parse_commands, _get_method,
+# Thread(target=method, args=(command, self.stop)))
+
+class HarnessThread:
+    """stands in for threading.Thread inside simulators.acu: start() runs the target under the harness
+    until it parks in the virtual sleep or returns; the status-update loop is never started (the harness
+    calls the subsystem updates itself)"""
+    registry = []
+
+    def __init__(self, target=None, args=(), **_kw):
+        self.target, self.args = target, args
+        self.daemon = True
+        self.h = None
+
+    def start(self):
+        if getattr(self.target, '__name__', '') == '_update_loop':
+            return
+        self.h = spawn(self.target, *self.args)
+        HarnessThread.registry.append(self.h)
+
+    def is_alive(self):
+        return self.h is not None and not self.h.done
+
+    def join(self, timeout=None):
+        while self.h is not None and not self.h.done:
+            resume(self.h, 0)
+
+
+class SystemRig(Rig):
+    def __init__(self, system, name):
+        Rig.__init__(self, getattr(system, name), dict(AZ=1, EL=2)[name])
+        self.system = system
+        self.stop = system.stop
+        self.msg_counter = 100
+
+    def command(self, cnt, name, p1=0.0, p2=0.0):
+        import simulators.acu as A
+        U = self.U
+        body = self.frame(cnt, self.MODES[name], p1, p2)
+        self.msg_counter += 1
+        msg = (A.start_flag + U.uint_to_string(16 + len(body) + 4, 4) + U.uint_to_string(self.msg_counter, 4)
+               + U.int_to_string(1, 4) + body + A.end_flag)
+        n0 = len(HarnessThread.registry)
+        for ch in msg:
+            self.system.parse(ch)
+        new = HarnessThread.registry[n0:]
+        a = self.a
+        if len(new) != 1 or a.received_mode_command_answer != 9 or a.received_mode_command_counter != cnt:
+            return None
+        self.handles.append(new[0])
+        if new[0].exc is not None:
+            self.exceptions.append((name, repr(new[0].exc)))
+        return 'accepted'
+
+
+def integration(ctx, report):
+    import simulators.acu as A
+    real_thread = A.Thread
+    A.Thread = HarnessThread
+    HarnessThread.registry = []
+    n = 0
+    try:
+        system = A.System()
+        scenarios = [
+            ('AZ', [['cmd', 1, 'active', 0.0, 0.0], ['cmd', 2, 'abs', 181.0, 0.5], ['tick', 1, 1024],
+                    ['cmd', 3, 'rel', -0.25, 0.85], ['tick', 1, 256], ['tick', 2, 256], ['tick', 2, 1024], ['update'],
+                    ['cmd', 4, 'slew', -1.0, 0.85], ['tick', 3, 2048], ['cmd', 5, 'stop', 0.0, 0.0],
+                    ['tick', 3, 256], ['update']]),
+            ('EL', [['cmd', 1, 'unstow', 0.0, 0.0], ['cmd', 2, 'active', 0.0, 0.0], ['cmd', 3, 'abs', 88.0, 0.5],
+                    ['tick', 2, 2048], ['tick', 2, 4096], ['update'], ['cmd', 4, 'drive', 0.0, 0.25],
+                    ['tick', 3, 4096], ['tick', 3, 8192], ['update']]),
+        ]
+        for name, ops in scenarios:
+            rig = SystemRig(system, name)
+            mon = Monitor(rig)
+            for op in ops:
+                t = apply_op(rig, op, mon)
+                n += 1
+                if op[0] == 'cmd' and t is None:
+                    mon.bad('integration_not_accepted',
+                            'a valid command sent through System.parse was not executed on its axis', op=op)
+                if mon.failures:
+                    break
+            other = system.EL if name == 'AZ' else system.AZ
+            if name == 'AZ' and (other.p_Ist != 90000000 or other.axis_state != 0):
+                mon.bad('integration_wrong_axis', 'a command for one axis changed the other', axis=name)
+            report(mon, dict(system=name), None, ops, 'integration:' + name)
+        system.stop.value = True
+        for h in HarnessThread.registry:
+            resume(h, 0)
+    finally:
+        A.Thread = real_thread
+    return n
+
+
+def corpus(confs):
+    """directed regression histories (each caught a defect or a seeded mutant once)"""
+    az, el = confs[0], confs[1]
+    act = ['cmd', 1, 'active', 0.0, 0.0]
+    return [
+        # relative preset after an interrupted preset: validation and execution must agree (fixes/15a)
+        ('rel_after_interrupted_abs', az, None,
+         [act, ['cmd', 2, 'abs', 440.0, 0.85], ['tick', 1, 10240], ['cmd', 3, 'stop', 0.0, 0.0], ['tick', 1, 10],
+          ['cmd', 4, 'rel', 20.0, 0.5], ['tick', 3, 1024], ['tick', 3, 65536], ['update']]),
+        ('rel_after_interrupted_slew', az, None,
+         [act, ['cmd', 2, 'slew', -1.0, 0.5], ['tick', 1, 2048], ['cmd', 3, 'rel', -1.0, 0.25],
+          ['tick', 1, 5], ['tick', 2, 1024], ['tick', 2, 4096]]),
+        # program_track received while the pointing subsystem is already tracking (fixes/15b)
+        ('track_first_iteration_pt3', az, None,
+         [act, ['feed', 185000000, 3, 181000000], ['cmd', 2, 'track', 0.0, 0.5], ['tick', 1, 1024],
+          ['cmd', 3, 'stop', 0.0, 0.0], ['tick', 1, 100]]),
+        # known findings
+        ('stop_with_same_counter', az, None,
+         [act, ['cmd', 5, 'abs', 181.0, 0.5], ['tick', 1, 256], ['cmd', 5, 'stop', 0.0, 0.0], ['tick', 1, 256]]),
+        ('second_program_track_lower_rate', az, None,
+         [act, ['cmd', 2, 'track', 0.0, 0.5], ['feed', 185000000, 2, 185000000],
+          ['cmd', 3, 'track', 0.0, 0.1], ['tick', 1, 1024]]),
+        # plain arrivals at the limits, drive to stow, supersession by a newer preset
+        ('slew_to_upper_limit', el, 89.5,
+         [['cmd', 1, 'unstow', 0.0, 0.0], ['cmd', 2, 'active', 0.0, 0.0], ['cmd', 3, 'slew', 1.0, 0.5],
+          ['tick', 2, 512], ['tick', 2, 1024], ['update'], ['cmd', 4, 'slew', -1.0, 0.25], ['tick', 3, 1 << 19],
+          ['update']]),
+        ('drive_to_stow', el, 45.0,
+         [['cmd', 2, 'active', 0.0, 0.0], ['cmd', 3, 'drive', 0.0, 0.25], ['tick', 1, 1 << 17], ['tick', 1, 1 << 17],
+          ['update'], ['cmd', 4, 'abs', 50.0, 0.1], ['tick', 2, 1024]]),
+        ('deactivated_in_mid_motion', az, None,
+         [act, ['cmd', 2, 'abs', 182.0, 0.5], ['tick', 1, 1024], ['cmd', 3, 'inactive', 0.0, 0.0], ['tick', 1, 1024],
+          ['tick', 1, 512], ['cmd', 4, 'active', 0.0, 0.0], ['tick', 1, 1024], ['tick', 1, 4096]]),
+        ('stowed_in_mid_motion', el, 89.0,
+         [['cmd', 2, 'active', 0.0, 0.0], ['cmd', 3, 'drive', 0.0, 0.25], ['tick', 1, 1024],
+          ['cmd', 4, 'abs', 80.0, 0.5], ['tick', 1, 1], ['tick', 2, 1024], ['cmd', 5, 'inactive', 0.0, 0.0],
+          ['tick', 2, 1024], ['update']]),
+        ('newer_preset_supersedes', az, None,
+         [act, ['cmd', 2, 'abs', 200.0, 0.85], ['tick', 1, 4096], ['cmd', 3, 'abs', 170.0, 0.3],
+          ['tick', 2, 1024], ['tick', 1, 1024], ['tick', 2, 1 << 17]]),
+    ]
+
+
 def oracle(ctx):
-    pass
+    AS = install_clock()
+    system, confs = system_config()
+    rng = ctx.rng
+    stats = {}
+    checked = 0
+
+    def report(mon, conf, start, ops, origin):
+        for klass, what, detail in mon.failures[:1]:
+            ctx.fail(klass, what, dict(origin=origin, conf=conf, start=start, ops=ops, detail=detail))
+
+    def absorb(mon):
+        for k, v in mon.stats.items():
+            stats[k] = stats.get(k, 0) + v
+
+    for name, conf, start, ops in corpus(confs):
+        mon = run_ops(AS, conf, start, ops)
+        absorb(mon)
+        checked += len(ops)
+        report(mon, conf, start, ops, 'corpus:' + name)
+    for i in range(ctx.n(150, 3000)):
+        conf = confs[i % 2] if rng.random() < 0.7 else rng.choice(EXTRA_CONFIGS)
+        lo, hi = conf['op_range']
+        start = None
+        if rng.random() < 0.5:
+            start = rng.choice([lo, hi, round(rng.uniform(lo, hi), 3)] + list(conf['stow_pos'] or []))
+        axis = make_axis(AS, conf, start)
+        axis.update_status()
+        rig = Rig(axis, conf['axis_id'])
+        mon = Monitor(rig)
+        sc = Script(rng, rig, monitor=mon, mode='drive' if rng.random() < 0.7 else 'soup')
+        sc.run(rng.choice([15, 30, 60]))
+        absorb(mon)
+        checked += len(sc.ops)
+        report(mon, conf, start, sc.ops, 'seeded')
+    checked += integration(ctx, report)
+    ctx.oracle_stats = dict(operations=checked, **stats)
+    ctx.evaluations += checked
 
 
 def replay(ctx, obj):
-    oracle(ctx)
-    return any(f['klass'] == obj.get('klass') for f in ctx.failures)
+    """re-execute the recorded operation list; True when the recorded class still fails"""
+    AS = install_clock()
+    w = obj['witness']
+    if 'system' in w['conf']:
+        hits = []
+        integration(ctx, lambda mon, *_a: hits.extend(mon.failures))
+        return any(f[0] == obj.get('klass') for f in hits)
+    mon = run_ops(AS, w['conf'], w['start'], w['ops'])
+    return any(f[0] == obj.get('klass') for f in mon.failures)
